@@ -1,6 +1,6 @@
 (* C12 — Hooks: nested order, after-hooks always paired, hook faults contained.
    [all_hooks cfg]: not a dry run and every hook is defined (so the whole trace is visible). *)
-From BV Require Import Base Status Rollup Runner RunnerVerdict RunnerSteps RunnerQuiet RunnerSelect RunnerHooks RunnerEq.
+From BV Require Import Base Status Rollup Runner RunnerVerdict RunnerSteps RunnerQuiet RunnerSelect RunnerHooks RunnerEq RunnerLocal.
 From BVGen Require Import StatusTable.
 
 (* a defined step: before_step, <function>, after_step - the after hook whatever happened *)
@@ -94,6 +94,61 @@ Theorem no_hooks_for_deselected_rule :
       rr_status res = skipped /\ rr_hook_failed res = false /\ allq ev = true.
 Proof. exact unselected_rule_is_skipped. Qed.
 Print Assumptions no_hooks_for_deselected_rule.
+
+(* non-interference: two runs of the same program under ANY two fault sets (cfg and
+   set_faults cfg f2; e.g. the fault-free run and a faulted one), no --stop, no aborting step,
+   before_all not raising.  sim_feature / sim_rule / sim_sitem say, level by level:
+   an element none of whose own hook sites (its before/after hooks, its tag hooks, the step
+   hooks of its steps, and those of everything below it) is affected has the SAME result in
+   both runs; an element whose own hooks are unaffected has children that are related in the
+   same way - so only the affected element, its ancestors and its descendants may differ *)
+Theorem hook_faults_leave_unrelated_elements_alone :
+  forall cfg f2, c_stop cfg = false ->
+  forall fs rs1 v1 a1 e1 rs2 v2 a2 e2,
+    forallb na_feature fs = true ->
+    c_faults cfg HBeforeAll 0 = false -> f2 HBeforeAll 0 = false ->
+    run_model cfg fs = (rs1, v1, a1, e1) ->
+    run_model (set_faults cfg f2) fs = (rs2, v2, a2, e2) ->
+    sim_list (sim_feature cfg f2) fs rs1 rs2.
+Proof. exact hook_faults_do_not_interfere. Qed.
+Print Assumptions hook_faults_leave_unrelated_elements_alone.
+
+(* without aborting steps every scenario hands the runner state back as it got it,
+   whatever its hooks did: a hook fault cannot leak through the runner state *)
+Theorem scenario_restores_the_runner_state :
+  forall c st id all_steps oe eff own st' res fld ev,
+    na_steps all_steps = true ->
+    run_scenario c st id all_steps oe eff own = (st', res, fld, ev) -> st' = st.
+Proof. exact run_scenario_frame. Qed.
+Print Assumptions scenario_restores_the_runner_state.
+
+(* and a scenario none of whose sites is affected runs identically from the same state *)
+Theorem unaffected_scenario_runs_identically :
+  forall cfg f2 st id all_steps oe eff own,
+    agree_scen cfg f2 id all_steps own ->
+    run_scenario (set_faults cfg f2) st id all_steps oe eff own = run_scenario cfg st id all_steps oe eff own.
+Proof. exact run_scenario_local. Qed.
+Print Assumptions unaffected_scenario_runs_identically.
+
+(* not vacuous: before_scenario(4) raises; scenario 4 changes, its sibling 6 and the
+   feature 10 keep their results, the premises of the theorem hold *)
+Example interference_example :
+  let hooks := [HBeforeAll; HAfterAll; HBeforeFeature; HAfterFeature; HBeforeRule; HAfterRule;
+                HBeforeScenario; HAfterScenario; HBeforeStep; HAfterStep; HBeforeTag; HAfterTag] in
+  let free := mkCfgData false false true TTrue hooks [] [] 99 false in
+  let flt := mkCfgData false false true TTrue hooks [(HBeforeScenario, 4)] [] 99 false in
+  let f := mkFeature 1 [7] None [FRule (mkRule 2 [8] None [SScen (mkScen 4 [9] [mkStep KPass 5]);
+                                                           SScen (mkScen 6 [] [mkStep KFail 7])])] in
+  let g := mkFeature 10 [] None [FItem (SScen (mkScen 11 [] [mkStep KPass 12]))] in
+  forallb na_feature [f; g] = true /\
+  match fst (fst (fst (run_case (free, [f; g])))), fst (fst (fst (run_case (flt, [f; g])))) with
+  | [mkFeatRes _ s1 _ [RFRule (mkRuleRes _ _ _ [RScen a1; RScen b1])]; g1],
+    [mkFeatRes _ s2 _ [RFRule (mkRuleRes _ _ _ [RScen a2; RScen b2])]; g2] =>
+      sr_status a1 = Some passed /\ sr_status a2 = Some hook_error /\
+      b1 = b2 /\ sr_status b1 = Some failed /\ g1 = g2 /\ fr_status g1 = passed
+  | _, _ => False
+  end.
+Proof. vm_compute. repeat split; reflexivity. Qed.
 
 Example nested_trace :
   let cfg := mkCfgData false false true TTrue
